@@ -91,9 +91,9 @@ func (cdb *CachedDatabase) CleanupExpiredCache() map[string]int {
 // UpdateDatabase updates the underlying database and invalidates cache
 func (cdb *CachedDatabase) UpdateDatabase(commands []Command) {
 	cdb.Database.Commands = commands
-	cdb.Database.BuildUniversalIndex() // Rebuild universal index
-	cdb.Database.buildTFIDFSearcher()  // ... and the TF-IDF re-ranker with its command index
-	cdb.InvalidateCache()              // Invalidate cache when database is updated
+	cdb.Database.buildInvertedIndex() // Rebuild universal index
+	cdb.Database.buildTFIDFSearcher() // ... and the TF-IDF re-ranker with its command index
+	cdb.InvalidateCache()             // Invalidate cache when database is updated
 }
 
 // SearchWithPipelineOptionsAndCache performs pipeline search with caching
